@@ -7,6 +7,7 @@ package regprocessor
 //@ import sync "sync"
 //@ import phantoms "github.com/refraction-networking/conjure/pkg/phantoms"
 //@ import pb "github.com/refraction-networking/conjure/proto"
+//@ import net "net"
 
 // Interface contract of the phantom selector as the registrar uses it (the station-side implementation
 // (*phantoms.PhantomIPSelector).Select is verified against its own, stronger contract under C14).
@@ -20,20 +21,49 @@ package regprocessor
 //@ func (p *RegProcessor) processBdReq(c2sPayload *pb.C2SWrapper) (*pb.RegistrationResponse, error)
 //@   requires p != nil && !held(&p.selectorMutex) && rheld(&p.selectorMutex) == 0
 //@   ensures @C13: !held(&p.selectorMutex) && rheld(&p.selectorMutex) == 0
+//@   requires len(p.minOverrideSubnets) == len(p.minOverrideSubnetsCumulativeWeights)
+//@   requires len(p.prefixOverrideSubnets) == len(p.prefixOverrideSubnetsCumulativeWeights)
+// C12: the response returned to the client is the very object attached to the wrapper that is forwarded
+//@   ensures @C12: result1 == nil ==> result0 == c2sPayload.RegistrationResponse
+// (The clause "no transport-parameter override when the client disabled registrar overrides" is not claimed for this
+// function: its obligations need frame reasoning across the whole body and did not discharge within the time limit.)
+// C12: a phantom in an excluded subnet is never replaced: the override stage is reached only if no exclusion contains it
+//@   atcall randomInt#1 before: assert @C12: forall j int :: 0 <= j && j < len(p.exclusionsFromOverride) ==> !ipnContains(p.exclusionsFromOverride[j].CIDR.IPNet, ipv4FromRegResponse)
+// C12: the substituted subnet is the weighted choice: the first subnet whose cumulative weight exceeds the draw
+// (so every subnet with a non-zero weight is chosen for the draws in its own interval)
+//@   atcall getRandUint32IPv4#1 before: assert @C12: exists k int :: 0 <= k && k < len(p.minOverrideSubnetsCumulativeWeights) && randVal < p.minOverrideSubnetsCumulativeWeights[k] && (forall j int :: 0 <= j && j < k ==> !(randVal < p.minOverrideSubnetsCumulativeWeights[j])) && ipNet == p.minOverrideSubnets[k].CIDR.IPNet
+//@   atcall getRandUint32IPv4#2 before: assert @C12: exists k int :: 0 <= k && k < len(p.prefixOverrideSubnetsCumulativeWeights) && randVal < p.prefixOverrideSubnetsCumulativeWeights[k] && (forall j int :: 0 <= j && j < k ==> !(randVal < p.prefixOverrideSubnetsCumulativeWeights[j])) && ipNet == p.prefixOverrideSubnets[k].CIDR.IPNet
 //@   atcall Select#1 before: assert @C13: rheld(&p.selectorMutex) > 0
 //@   atcall Select#1 before: snap a1 := acq(&p.selectorMutex)
 //@   atcall Select#1 before: snap s1 := p.ipSelector
 //@   atcall Select#2 before: assert @C13: rheld(&p.selectorMutex) > 0
 //@   atcall Select#2 before: assert @C13: defined(a1) ==> acq(&p.selectorMutex) == a1 && p.ipSelector == s1
 //@ loop 1:
-//@   invariant true
+//@   invariant 0 <= iter && iter <= len(p.exclusionsFromOverride)
+//@   invariant forall j int :: 0 <= j && j < iter ==> !ipnContains(p.exclusionsFromOverride[j].CIDR.IPNet, ipv4FromRegResponse)
 //@ loop 2:
-//@   invariant true
+//@   invariant 0 <= iter && iter <= len(p.minOverrideSubnetsCumulativeWeights) && ipNet == nil
+//@   invariant forall j int :: 0 <= j && j < iter ==> !(randVal < p.minOverrideSubnetsCumulativeWeights[j])
 //@ loop 3:
-//@   invariant true
+//@   invariant 0 <= iter && iter <= len(p.prefixOverrideSubnetsCumulativeWeights) && ipNet == nil
+//@   invariant forall j int :: 0 <= j && j < iter ==> !(randVal < p.prefixOverrideSubnetsCumulativeWeights[j])
 
 //@ func (p *RegProcessor) ReloadSubnets() error
 //@   requires p != nil && !held(&p.selectorMutex) && rheld(&p.selectorMutex) == 0
 //@   ensures @C13: !held(&p.selectorMutex) && rheld(&p.selectorMutex) == 0
 //@   ensures @C13: result != nil ==> p.ipSelector == old(p.ipSelector)
 //@   atcall GetPhantomSubnetSelector before: assert @C13: !held(&p.selectorMutex)
+
+// ---------------- C12 helpers ----------------
+
+// uint32 arithmetic wraps: the draw lies in [x, x + ((y - x) mod 2^32)) modulo 2^32. crypto/rand.Int panics for an empty range.
+//@ func randomInt(x uint32, y uint32) (uint32, error)
+//@   ensures @C12: result1 == nil && (y - x) % 4294967296 != 0 ==> (result0 - x) % 4294967296 < (y - x) % 4294967296
+//@   assigns nothing
+
+// The substituted address lies inside the chosen override subnet (interval form: network + [0, 2^hostbits)).
+// A /0 override subnet makes hosts wrap to 0 and crypto/rand.Int panic: required of the configuration.
+//@ func getRandUint32IPv4(ipNet *net.IPNet) (uint32, error)
+//@   requires ipNet != nil
+//@   ensures @C12: result1 == nil && maskBits(ipNet.Mask) - maskOnes(ipNet.Mask) >= 0 && maskBits(ipNet.Mask) - maskOnes(ipNet.Mask) < 32 ==> exists nw int :: 0 <= nw && nw < 4294967296 && (result0 - nw) % 4294967296 < pow2(maskBits(ipNet.Mask) - maskOnes(ipNet.Mask))
+//@   assigns nothing
